@@ -50,6 +50,14 @@ def run(rep):
         ["sym:%s:%s" % (hx(b"refs/heads/s"), hx(b"refs/heads/s2")), "sym:%s:%s" % (hx(b"refs/heads/s2"), hx(b"refs/heads/s")), "pack:1",
          "set:%s:NONE:%s" % (hx(b"refs/heads/s"), hx(ids[0]))],
     ]
+    # writes through a symbolic ref whose target collides (file vs directory) with a packed or loose ref
+    for (exist, target) in ((b"refs/heads/a", b"refs/heads/a/b"), (b"refs/heads/a/b", b"refs/heads/a")):
+        for packed in (True, False):
+            for via in (b"HEAD", b"refs/heads/s"):
+                for op in ("set:%s:NONE:%s", "add:%s:%s"):
+                    seqs.append(["set:%s:NONE:%s" % (hx(exist), hx(ids[0]))] + (["pack:1"] if packed else []) +
+                                ["sym:%s:%s" % (hx(via), hx(target)), op % (hx(via), hx(ids[1])), "reopen",
+                                 "set:%s:NONE:%s" % (hx(target), hx(ids[2]))])
     for _ in range(nseq):
         seqs.append(gen_seq(rng, ids, rng.randrange(2, 14 if rep.tier == "quick" else 30)))
     head = "sym:%s:%s" % (hx(b"HEAD"), hx(b"refs/heads/main"))
@@ -71,6 +79,14 @@ def run(rep):
             k = next((i for i, (a, b) in enumerate(zip(msteps, isteps)) if a != b), min(len(msteps), len(isteps)))
             rep.disagree("DiskRefsContainer vs Refs.rstep", dict(case, first_diff_step=k),
                          msteps[k] if k < len(msteps) else None, (isteps[k] if k < len(isteps) else None, r.get("excs")))
+        # the property itself: no two refs may collide as file versus directory, at any step
+        for k, stepdump in enumerate(v.split("|")):
+            present = [unhx(x.split("=")[0]) for x in stepdump.split(" ", 1)[1].split(",") if "=" in x]
+            hit = [(a, b) for a in present for b in present if b.startswith(a + b"/")]
+            if hit:
+                rep.fail("df-collision", "refs %r and %r exist together (file/directory collision not refused)" % hit[0],
+                         dict(case, step=k))
+                break
         if "git" in r:
             # git lists resolvable refs under refs/ (dangling symrefs are omitted) and HEAD
             fin = sorted(x for x in r["final"].split(",") if x != "_")
